@@ -154,7 +154,7 @@ func c05Once(src string, pol *orderPolicy) *c05Obs {
 	if err != nil {
 		obs.Stage, obs.Err = "run", err.Error()
 	} else if res != nil {
-		obs.Result = string(res.Type()) + ":" + res.Inspect()
+		obs.Result = string(res.Type()) + ":" + safeInspect(res)
 	}
 	obs.Log = strings.Join(h.LogStrings(), "\n")
 	return obs
